@@ -450,6 +450,143 @@ fn to_cpi(ix_line: &str, mode: &str) -> String {
     format!("cpi {mode} {}", ix_line.strip_prefix("ix ").expect("an ix op"))
 }
 
+pub const FLAGS: &[&str] = &["w0s0", "w0s1", "w1s0", "w1s1"];
+const FIELD_PATHS: &[&str] = &["unchecked", "data", "validate", "set"];
+
+/// argument tails of the validating paths for one image: (vset / vdirect tails, init tails)
+fn arg_tails(rng: &mut Rng, kind: &str, b: &[u8]) -> (Vec<String>, Vec<String>) {
+    if kind == "mint" {
+        let dec = b.get(44).copied().unwrap_or(0);
+        let decs = ["any".to_string(), dec.to_string(), (dec ^ 1).to_string()];
+        let auths = ["any".to_string(), hk(&key_at(rng, b, 4)), hk(&rkey(rng))];
+        let frs = ["any".to_string(), "none".to_string(), hk(&key_at(rng, b, 50)), hk(&rkey(rng))];
+        let mut v = vec![];
+        for d in &decs {
+            for a in &auths {
+                for f in &frs {
+                    v.push(format!("{d} {a} {f}"));
+                }
+            }
+        }
+        let mut i = vec![];
+        for d in &decs[1..] {
+            for a in &auths[1..] {
+                for f in &frs[1..] {
+                    i.push(format!("{d} {a} {f}"));
+                }
+            }
+        }
+        (v, i)
+    } else {
+        let mints = ["any".to_string(), hk(&key_at(rng, b, 0)), hk(&rkey(rng))];
+        let owns = ["any".to_string(), hk(&key_at(rng, b, 32)), hk(&rkey(rng))];
+        let mut v = vec![];
+        for m in &mints {
+            for o in &owns {
+                v.push(format!("{m} {o}"));
+            }
+        }
+        let mut i = vec![];
+        for m in &mints[1..] {
+            for o in &owns[1..] {
+                i.push(format!("{m} {o}"));
+            }
+        }
+        (v, i)
+    }
+}
+
+/// one image under EVERY runtime flag combination and EVERY access path (full argument grids)
+fn view_all(rng: &mut Rng, kind: &str, owner: &Pubkey, b: &[u8]) -> Vec<String> {
+    let (vt, it) = arg_tails(rng, kind, b);
+    let (o, h) = (hk(owner), hex(b));
+    let mut out = vec![];
+    for fl in FLAGS {
+        for p in FIELD_PATHS {
+            out.push(format!("view {kind} {p} {fl} {o} {h}"));
+        }
+        for t in &vt {
+            out.push(format!("view {kind} vset {fl} {o} {h} {t}"));
+            out.push(format!("view {kind} vdirect {fl} {o} {h} {t}"));
+        }
+        for t in &it {
+            out.push(format!("view {kind} init {fl} {o} {h} {t}"));
+        }
+    }
+    out
+}
+
+/// one image under every flag combination, argument-free paths plus one validating op per path
+fn view_light(rng: &mut Rng, kind: &str, owner: &Pubkey, b: &[u8]) -> Vec<String> {
+    let (vt, it) = arg_tails(rng, kind, b);
+    let (o, h) = (hk(owner), hex(b));
+    let mut out = vec![];
+    for fl in FLAGS {
+        for p in FIELD_PATHS {
+            out.push(format!("view {kind} {p} {fl} {o} {h}"));
+        }
+        out.push(format!("view {kind} vset {fl} {o} {h} {}", rng.pick(&vt)));
+        out.push(format!("view {kind} vdirect {fl} {o} {h} {}", rng.pick(&vt)));
+        out.push(format!("view {kind} init {fl} {o} {h} {}", rng.pick(&it)));
+    }
+    out
+}
+
+fn view_random(rng: &mut Rng, kind: &str, owner: &Pubkey, b: &[u8]) -> String {
+    let (vt, it) = arg_tails(rng, kind, b);
+    let (o, h, fl) = (hk(owner), hex(b), *rng.pick(FLAGS));
+    match rng.below(7) {
+        0..=3 => format!("view {kind} {} {fl} {o} {h}", rng.pick(FIELD_PATHS)),
+        4 => format!("view {kind} vset {fl} {o} {h} {}", rng.pick(&vt)),
+        5 => format!("view {kind} vdirect {fl} {o} {h} {}", rng.pick(&vt)),
+        _ => format!("view {kind} init {fl} {o} {h} {}", rng.pick(&it)),
+    }
+}
+
+/// every state × every COption shape: (label, image). Token: Uninitialized / Initialized / Frozen; mint:
+/// uninitialized / initialized; options all absent (zero payload) / all present / all cleared over stale payload.
+fn state_cross_images(rng: &mut Rng) -> Vec<(&'static str, String, Vec<u8>)> {
+    let mut out = vec![];
+    for (sname, state) in [
+        ("Uninitialized", ref_state::AccountState::Uninitialized),
+        ("Initialized", ref_state::AccountState::Initialized),
+        ("Frozen", ref_state::AccountState::Frozen),
+    ] {
+        for shape in ["absent", "present", "stale"] {
+            let mut a = random_account(rng);
+            a.state = state;
+            let some = shape != "absent";
+            a.delegate = copt(some.then(|| rkey(rng)));
+            a.is_native = copt(some.then(|| rng.next() | 1));
+            a.close_authority = copt(some.then(|| rkey(rng)));
+            let mut b = pack_account(a);
+            if shape == "stale" {
+                for t in [72usize, 109, 129] {
+                    b[t..t + 4].copy_from_slice(&[0, 0, 0, 0]);
+                }
+            }
+            out.push(("token", format!("state {sname} options {shape}"), b));
+        }
+    }
+    for init in [false, true] {
+        for shape in ["absent", "present", "stale"] {
+            let mut m = random_mint(rng);
+            m.is_initialized = init;
+            let some = shape != "absent";
+            m.mint_authority = copt(some.then(|| rkey(rng)));
+            m.freeze_authority = copt(some.then(|| rkey(rng)));
+            let mut b = pack_mint(m);
+            if shape == "stale" {
+                for t in [0usize, 46] {
+                    b[t..t + 4].copy_from_slice(&[0, 0, 0, 0]);
+                }
+            }
+            out.push(("mint", format!("initialized {init} options {shape}"), b));
+        }
+    }
+    out
+}
+
 struct Out {
     cases: Vec<Vec<String>>,
 }
@@ -470,6 +607,16 @@ impl Out {
 fn perturb(out: &mut Out, rng: &mut Rng, what: &str, base: &[u8], tags: &[usize], flag: usize, flag_vals: &[u8]) {
     let tok = hk(&tok_id());
     out.push(&format!("image {what} valid"), vec![format!("{what} {tok} {}", hex(base))]);
+    // the valid base behind every runtime flag combination through every access path
+    let ops = view_all(rng, what, &tok_id(), base);
+    out.push(&format!("view {what} valid: flags x paths"), ops);
+    // the flag / state byte over its range, again behind every flag combination (light grid)
+    for &v in flag_vals {
+        let mut b = base.to_vec();
+        b[flag] = v;
+        let ops = view_light(rng, what, &tok_id(), &b);
+        out.push(&format!("view {what} flag@{flag} := {v}: flags x paths"), ops);
+    }
     for &t in tags {
         for i in 0..4 {
             for v in [0u8, 1, 2, 255] {
@@ -612,6 +759,21 @@ pub fn generate(args: &Args) -> Vec<Vec<String>> {
         let ops = vtoken_grid(&mut rng, &tok_id(), &b);
         out.push("validate token grid", ops);
     }
+    // every state x every COption shape x every runtime flag combination x every access path
+    for _ in 0..scale {
+        for (kind, label, b) in state_cross_images(&mut rng) {
+            let ops = view_all(&mut rng, kind, &tok_id(), &b);
+            out.push(&format!("view {kind} {label}: flags x paths"), ops);
+        }
+        for (label, b) in stale_mint_images(&mut rng) {
+            let ops = view_light(&mut rng, "mint", &tok_id(), &b);
+            out.push(&format!("view mint stale {label}: flags x paths"), ops);
+        }
+        for (label, b) in stale_token_images(&mut rng) {
+            let ops = view_light(&mut rng, "token", &tok_id(), &b);
+            out.push(&format!("view token stale {label}: flags x paths"), ops);
+        }
+    }
     // all-zero and random images
     let tok = hk(&tok_id());
     out.push("image mint zero", vec![format!("mint {tok} {}", hex(&[0u8; 82]))]);
@@ -667,6 +829,7 @@ pub fn generate(args: &Args) -> Vec<Vec<String>> {
                 if rng.chance(1, 2) {
                     ops.push(vmint_random(&mut rng, &owner, &b));
                 }
+                ops.push(view_random(&mut rng, "mint", &owner, &b));
                 out.push(&format!("image mint prng {kind}"), ops);
             }
             7 | 8 => {
@@ -677,6 +840,7 @@ pub fn generate(args: &Args) -> Vec<Vec<String>> {
                 if rng.chance(1, 2) {
                     ops.push(vtoken_random(&mut rng, &owner, &b));
                 }
+                ops.push(view_random(&mut rng, "token", &owner, &b));
                 out.push(&format!("image token prng {kind}"), ops);
             }
             _ => {
